@@ -194,12 +194,13 @@ Proof.
 Qed.
 
 Theorem liquidate_fresh w liqor liqee ab lb n w' ha hl ha' hl' :
-  HOk2 w -> 0 <= n -> liqor <> liqee -> h_liquidate w liqor liqee ab lb n = Ok w' ->
+  HOk2 w -> 0 <= n -> h_liquidate w liqor liqee ab lb n = Ok w' ->
   nth_bank w ab = Ok ha -> nth_bank w lb = Ok hl -> nth_bank w' ab = Ok ha' -> nth_bank w' lb = Ok hl' ->
   fresh_after w ha ha' false /\ fresh_after w hl hl' false.
 Proof.
-  intros H2 Hn Hd H Ea El Ea' El'.
+  intros H2 Hn H Ea El Ea' El'.
   destruct (h_liquidate_effect _ _ _ _ _ _ _ H) as (ha0 & hl0 & ha0' & hl0' & ee & er & ee3 & er3 & Ea0 & El0 & Eee & Eer & Eb & _ & _ & _ & _ & F).
+  pose proof (liquidate_facts_distinct _ _ _ _ _ _ _ _ _ _ _ _ _ _ F) as Hd.
   rewrite Ea in Ea0. apply Ok_inj in Ea0. subst ha0. rewrite El in El0. apply Ok_inj in El0. subst hl0.
   pose proof (liquidate_facts_ne _ _ _ _ _ _ _ _ _ _ _ _ _ _ F) as Hne.
   assert (Xa : ha' = ha0').
@@ -221,7 +222,7 @@ Proof.
   destruct F as (ba1 & bl1 & er0 & q_liq & q_fin & ins_fee & i1 & la1 & b1 & bl2 & b1' & i2 & b2 & ba2 & b2' & i3 & la3 & b3 & ba3 & b3' &
           i4 & b4 & bl3 & b4' & ins_n & f & ba4 & bl5 & F).
   cbv zeta in F.
-  destruct F as (Hamt & _ & Hacca & Haccl & Hr0 & Hif & Hif0 & Hqf0 & Hloc1 & Hb1 & Hdec1 & Hi2 & Hb2 & Hdec2 & Hloc3 & Hb3 & Hinc3 &
+  destruct F as (Hamt & _ & _ & Hacca & Haccl & Hr0 & Hif & Hif0 & Hqf0 & Hloc1 & Hb1 & Hdec1 & Hi2 & Hb2 & Hdec2 & Hloc3 & Hb3 & Hinc3 &
                  Hi4 & Hb4 & Hinc4 & Hinsn & Hvle & Hf & Hrange & Hca & Hcl & -> & -> & _ & _).
   pose proof (accrue_stamp _ _ _ _ Hoka Hacca) as Ua1. pose proof (accrue_stamp _ _ _ _ Hokl Haccl) as Ul1.
   (* share values are untouched by the four legs: read them off the one-step lemmas of the solvency proof *)
